@@ -69,13 +69,35 @@ def lean_obligations(pid, tier):
     if not obligations:
         failures.append("audit printed no theorems")
     if tier == "thorough":
-        c = sh(["lake", "env", "leanchecker", f"HmcVerif.Props.{pid}"], cwd=LEAN_DIR, timeout=3600)
-        cmd += f" && lake env leanchecker HmcVerif.Props.{pid}"
+        # every module of this project that the audited theorems depend on (Props, Real, Model), re-checked by the independent checker
+        mods = _project_closure(f"HmcVerif.Audit.{pid}")
+        c = sh(["lake", "env", "leanchecker"] + mods, cwd=LEAN_DIR, timeout=3600)
+        cmd += " && lake env leanchecker " + " ".join(mods)
         if c.returncode != 0:
-            failures.append("leanchecker rejected Props module: " + (c.stdout + c.stderr)[-800:])
+            failures.append("leanchecker rejected a module: " + (c.stdout + c.stderr)[-800:])
         else:
-            obligations.append({"theorem": f"leanchecker HmcVerif.Props.{pid}", "axioms": []})
+            obligations.append({"theorem": "leanchecker " + " ".join(mods), "axioms": []})
     return obligations, failures, cmd
+
+
+def _project_closure(root):
+    """the modules of the lake project in the import closure of `root` (the root itself last), read off the source files"""
+    seen, order = set(), []
+
+    def visit(m):
+        if m in seen or not m.startswith("HmcVerif"):
+            return
+        seen.add(m)
+        path = os.path.join(LEAN_DIR, *m.split(".")) + ".lean"
+        if os.path.exists(path):
+            for line in open(path):
+                mm = re.match(r"\s*import\s+(\S+)", line)
+                if mm:
+                    visit(mm.group(1))
+        order.append(m)
+
+    visit(root)
+    return order
 
 
 # ----------------------------------------------------------------------------- findings
